@@ -24,7 +24,11 @@ func verifC11Spin(deadline time.Time, cond func() bool) bool {
 		if i&0xff == 0xff && time.Now().After(deadline) {
 			return false
 		}
-		runtime.Gosched()
+		if i < 4000 {
+			runtime.Gosched()
+		} else {
+			time.Sleep(50 * time.Microsecond) // the machine is busy: stop burning the CPU the server goroutines need
+		}
 	}
 }
 
@@ -110,12 +114,12 @@ func (e *verifC11Env) probeAllFast() bool {
 // no new frames on any user session).
 func (e *verifC11Env) quiesce() error {
 	w := e.w
-	deadline := time.Now().Add(3 * time.Second)
+	deadline := time.Now().Add(20 * time.Second)
 	stable := 0
 	var last int64 = -1
 	for stable < 2 {
 		if time.Now().After(deadline) {
-			return errors.New("world did not quiesce within 3s")
+			return errors.New("world did not quiesce within 20s")
 		}
 		if !w.chansEmpty() {
 			stable = 0
